@@ -504,7 +504,7 @@ func (x *Exec) declareMapLen() {
 // rangeCopy returns an array equal to base except that [dlo, dlo+n) holds src[slo, slo+n).
 func (fr *Frame) rangeCopy(base Term, dlo Term, src Term, slo Term, n Term) Term {
 	c := fr.x.ctx
-	if nv, ok := litVal(n); ok && nv.Int64() <= 16 {
+	if nv, ok := litVal(n); ok && nv.Int64() <= 40 {
 		t := base
 		for i := int64(0); i < nv.Int64(); i++ {
 			t = Store(t, Add(dlo, IntLit(i)), Select(src, Add(slo, IntLit(i))))
